@@ -316,7 +316,9 @@ class EqMethod(MethodDescriptor):
             value_self = getattr(self, attr, MISSING)
             value_other = getattr(other, attr, MISSING)
             if inspect.ismethod(value_self) and inspect.ismethod(value_other):
-                return value_self.__func__ is value_other.__func__
+                if value_self.__func__ is not value_other.__func__:
+                    return False
+                continue
             if value_self != value_other:
                 return False
         return True
